@@ -4,6 +4,8 @@ import (
 	"context"
 	"io"
 
+	"storj.io/drpc"
+
 	"storj.io/drpc/drpcwire"
 	vrt "storj.io/drpc/internal/verifrt"
 )
@@ -257,4 +259,118 @@ func VerifH_ParkedWriteTwoEvents() {
 		last, lastDone, lastKind = fr.ID, fr.Done, fr.Kind
 	}
 	vrt.Cover("twoevents-end")
+}
+
+type failEnc struct{}
+
+var errDecode error = &appErr{msg: "undecodable", code: 42}
+
+func (failEnc) Marshal(msg drpc.Message) ([]byte, error)     { return nil, errDecode }
+func (failEnc) Unmarshal(buf []byte, msg drpc.Message) error { return errDecode }
+
+// VerifH_RecvUndecodable: a received message fails to decode (the dispatcher's
+// "undecodable request" path): MsgRecv returns the decoder's error, the packet buffer is
+// released, and a following SendError / Close completes (the reader is not left parked
+// and the terminating call does not hang).
+func VerifH_RecvUndecodable() {
+	sid := uint64(1)
+	tr := &recTransport{}
+	s := NewWithOptions(context.Background(), sid, drpcwire.NewWriter(tr, 64), Options{})
+	useClose := vrt.Bool("thenClose")
+	var rerr, terr error
+	pdone, cdone := false, false
+	go func() {
+		_ = s.HandlePacket(drpcwire.Packet{ID: drpcwire.ID{Stream: sid, Message: 1}, Kind: drpcwire.KindMessage, Data: []byte{1, 2}})
+		pdone = true
+	}()
+	go func() {
+		var out []byte
+		rerr = s.MsgRecv(&out, failEnc{})
+		if useClose {
+			terr = s.Close()
+		} else {
+			terr = s.SendError(rerr)
+		}
+		cdone = true
+	}()
+	vrt.Quiesce()
+	vrt.Assert(cdone, "receive of an undecodable message and the following SendError/Close return")
+	vrt.Assert(pdone, "the reader handing over the message is released")
+	vrt.Assert(rerr == errDecode, "MsgRecv reports the decoder's error")
+	vrt.Assert(terr == nil, "the terminating call succeeds")
+	vrt.Assert(s.IsFinished(), "the stream finishes")
+	if !useClose {
+		// the error packet carries the dispatcher's message and code
+		pk := []refFrameOut{{kind: drpcwire.KindError, data: append([]byte{0, 0, 0, 0, 0, 0, 0, 42}, "undecodable"...)}}
+		checkLog(tr.log, sid, pk)
+	}
+	vrt.Cover("undecodable-end")
+}
+
+
+// slowEnc's Unmarshal parks (message held) until released.
+type slowEnc struct {
+	entered *bool
+	release *bool
+}
+
+func (e slowEnc) Marshal(msg drpc.Message) ([]byte, error) { return *(msg.(*[]byte)), nil }
+func (e slowEnc) Unmarshal(buf []byte, msg drpc.Message) error {
+	*e.entered = true
+	vrt.WaitFor(e.release)
+	*(msg.(*[]byte)) = append([]byte(nil), buf...)
+	return nil
+}
+
+// VerifH_TerminateWhileHeld: a message is being decoded by the application (held) with the
+// reader parked in Put behind it; the stream is terminated concurrently (Cancel / Close /
+// remote Error), which must wait for the held message; then the application finishes
+// decoding. Everybody must be released: the in-flight receive returns the intact message,
+// the terminating call returns, the reader returns, later receives fail.
+func VerifH_TerminateWhileHeld() {
+	sid := uint64(1)
+	tr := &recTransport{}
+	s := NewWithOptions(context.Background(), sid, drpcwire.NewWriter(tr, 64), Options{})
+	entered, release := false, false
+	enc := slowEnc{&entered, &release}
+	how := vrt.Choice("how", 3)
+	var got []byte
+	var rerr error
+	rdone, pdone, tdone := false, false, false
+	go func() { rerr = s.MsgRecv(&got, enc); rdone = true }()
+	go func() {
+		buf := []byte{5, 6}
+		_ = s.HandlePacket(drpcwire.Packet{ID: drpcwire.ID{Stream: sid, Message: 1}, Kind: drpcwire.KindMessage, Data: buf})
+		// the manager's reader reuses its packet buffer as soon as HandlePacket returns
+		buf[0], buf[1] = 0xEE, 0xEF
+		pdone = true
+	}()
+	vrt.WaitFor(&entered)
+	vrt.Quiesce()
+	go func() {
+		switch how {
+		case 0:
+			s.Cancel(context.Canceled)
+		case 1:
+			_ = s.Close()
+		case 2:
+			_ = s.HandlePacket(drpcwire.Packet{ID: drpcwire.ID{Stream: sid, Message: 2}, Kind: drpcwire.KindError, Data: []byte{0, 0, 0, 0, 0, 0, 0, 1, 'x'}})
+		}
+		tdone = true
+	}()
+	vrt.Quiesce()
+	vrt.Assert(!rdone, "the receive is still decoding")
+	release = true
+	vrt.Quiesce()
+	vrt.Assert(rdone && rerr == nil && len(got) == 2 && got[0] == 5 && got[1] == 6, "the in-flight receive returns the intact message")
+	vrt.Assert(tdone, "the terminating call returns once the held message is released")
+	vrt.Assert(pdone, "the reader is released")
+	var again []byte
+	d2 := false
+	var e2 error
+	go func() { e2 = s.MsgRecv(&again, byteEnc{}); d2 = true }()
+	vrt.Quiesce()
+	vrt.Assert(d2 && e2 != nil, "later receives fail instead of hanging")
+	vrt.Assert(s.IsFinished(), "the stream finishes")
+	vrt.Cover("held-end")
 }
